@@ -3,8 +3,8 @@ generic fault for other exceptions, nothing leaked, documented HTTP status."""
 from symx.api import harness
 from harness import pipeline as P, pipeline_oracles as O
 
-PARAMS = [(proto, tr) for proto in ('json', 'xml', 'soap11', 'http-json')
-          for tr in ('server', 'wsgi-chunked') if not (proto == 'http-json' and tr == 'server')]
+PARAMS = [(proto, tr) for proto in ('json', 'xml', 'soap11', 'http-json', 'http-soap11', 'soap11-json')
+          for tr in ('server', 'wsgi-chunked') if not (P.in_of(proto) == 'http' and tr == 'server')]
 
 
 @harness('C09', params=PARAMS, label=lambda p: '%s %s' % p,
